@@ -339,6 +339,54 @@ func init() {
 	}
 }
 
+// paidBy builds a RegisterTx of k whose gas is paid by somebody else (at twice the usual price)
+func paidBy(k, payer *node.Key, amount *big.Int, profile map[string]string, exp uint64) *types.Transaction {
+	data, _ := json.Marshal(profile)
+	tx := types.NewReimbursementContractCreation(k.Addr, payer.Addr, amount, data, params.RegisterTx, node.ChainID, exp, "", "")
+	tx, err := types.MakeReimbursementTxSigner().SignTx(tx, k.Priv)
+	if err != nil {
+		panic(err)
+	}
+	tx = types.GasPayerSignatureTx(tx, big.NewInt(2000000000), 200000)
+	tx, err = types.MakeGasPayerSigner().SignTx(tx, payer.Priv)
+	if err != nil {
+		panic(err)
+	}
+	return tx
+}
+
+func init() {
+	// deposits and refunds of an account whose gas somebody else pays
+	tdef(&tLetter{name: "rC2/X", deposit: tC2, amount: minDeposit, mk: func(exp uint64) *types.Transaction {
+		return paidBy(tC2, tX, minDeposit, tprofile(tC2, "true", tC2.Addr), exp)
+	}})
+	tdef(&tLetter{name: "xC1/X", unreg: tC1, mk: func(exp uint64) *types.Transaction {
+		return paidBy(tC1, tX, new(big.Int), tprofile(tC1, "false", tC1.Addr), exp)
+	}})
+	tdef(&tLetter{name: "uC1+50/X", deposit: tC1, amount: node.Lemo(50), mk: func(exp uint64) *types.Transaction {
+		return paidBy(tC1, tX, node.Lemo(50), tprofile(tC1, "true", tC1.Addr), exp)
+	}})
+}
+
+// restartLetter is a block letter, not a transaction: the node is closed and reopened on its data
+// directory (a process restart as far as store, deputy manager and engine are concerned), then an
+// empty block is mined.
+const restartLetter = "~"
+
+func (w *tworld) restart() {
+	if !w.f.Quiesce() {
+		panic("harness: store does not quiesce")
+	}
+	dir := w.f.Dir
+	w.f.Close()
+	w.f = &node.Factory{Node: node.Reopen(dir, termDeps, node.K("factory"))}
+	head := w.f.BC.CurrentBlock()
+	if head.Hash() != w.head.Hash() {
+		panic(fmt.Sprintf("harness: after the restart the head is %d %s, was %d %s", head.Height(), head.Hash().Prefix(), w.head.Height(), w.head.Hash().Prefix()))
+	}
+	w.head = head
+}
+
 // box letters are written "B:a;b": a box signed and paid by X with the sub-transactions a, b (each
 // signed and paid by its own sender at its own price)
 func boxLetter(name string) *tLetter {
@@ -384,7 +432,7 @@ func blockTxNames(letter string) []string {
 type scenario struct {
 	name   string
 	prefix []string // block letters for heights 1 .. len(prefix); the window starts right after
-	skip   bool     // the first block is mined one slot late, so that the rotation starts with the other deputy
+	late   []int    // heights mined one slot late (by the next deputy in the rotation), so that the other deputy mines the following heights / the reward block
 	window int      // number of window heights
 }
 
@@ -419,7 +467,9 @@ func init() {
 	// unregisters them first.
 	sdef(&scenario{name: "A", prefix: []string{fundLetter, "rC1,rC3", "-", "-", "-", "-"}, window: 6})
 	// the same with the rotation shifted by one (the other deputy mines each height)
-	sdef(&scenario{name: "A'", prefix: []string{fundLetter, "rC1,rC3", "-", "-", "-", "-"}, window: 6, skip: true})
+	sdef(&scenario{name: "A'", prefix: []string{fundLetter, "rC1,rC3", "-", "-", "-", "-"}, window: 6, late: []int{1}})
+	// the reward block is mined by the second-ranked deputy of the new term
+	sdef(&scenario{name: "A''", prefix: []string{fundLetter, "rC1,rC3", "s0=odd", "-", "-", "-"}, window: 6, late: []int{11}})
 	// term 0's reward already set to the odd amount
 	sdef(&scenario{name: "Ar", prefix: []string{fundLetter, "rC1,rC3", "s0=odd", "-", "-", "-"}, window: 6})
 	// nobody but the genesis deputies is a candidate: they stay in office in term 1
@@ -428,6 +478,7 @@ func init() {
 	// genesis deputies are out of office since 11
 	sdef(&scenario{name: "B", prefix: []string{fundLetter, "rC1,rC3", "s0=odd", "-", "-", "-", "-", "-", "-", "-", "-", "vVC1", "s1=odd", "-"}, window: 6})
 	// the same without preset rewards
+	sdef(&scenario{name: "B''", prefix: []string{fundLetter, "rC1,rC3", "s0=odd", "-", "-", "-", "-", "-", "-", "-", "-", "vVC1", "s1=odd", "-"}, window: 6, late: []int{19}})
 	sdef(&scenario{name: "Bu", prefix: []string{fundLetter, "rC1,rC3", "-", "-", "-", "-", "-", "-", "-", "-", "-", "-", "-", "-"}, window: 6})
 }
 
